@@ -50,6 +50,12 @@ class IncludeDepthError(Exception):
         Exception.__init__(self, "file %s: includes are nested more than %d files deep" % (path, limit))
 
 
+class TwoNamesError(Exception):
+    def __init__(self, path, first, second):
+        Exception.__init__(self, "file %s is used under two names, '%s' and '%s': its definitions would be written twice" %
+                           (path, first, second))
+
+
 class SameNameError(Exception):
     def __init__(self, name, first, second):
         Exception.__init__(self, "two different files named '%s' are used: %s and %s" % (name, first, second))
@@ -88,6 +94,10 @@ class FileProcessor(object):
         self.including = None
         self.heights = {}
         self.verified = set()
+        self.inodes = {}
+        '''(device, inode) of the files used so far, with the real path that stands for each'''
+        self.name_of = {}
+        '''The base name each file is used under'''
         '''(absolute path, directories searched first) of the files whose includes were resolved or compared from there'''
         '''Absolute paths are keys, values are the lengths of the longest include chains starting at the files'''
         '''Absolute paths are keys, values are the includes of that file: (leaf, absolute path it was found at)'''
@@ -112,7 +122,7 @@ class FileProcessor(object):
         '''
         path = self._find(leaf)
         if self.including is not None:
-            self.includes_of[self.including].append((leaf, path and os.path.realpath(path)))
+            self.includes_of[self.including].append((leaf, path and self._identity(path)))
         if not path:
             raise FileNotFoundError(leaf)
         """ a file is one file however it is reached: its own includes are searched next to the file itself """
@@ -141,17 +151,25 @@ class FileProcessor(object):
         self.verified.add((abspath, _context(path)))
         for leaf, found in self.includes_of[abspath]:
             here = self._find(leaf)
-            if (here and os.path.realpath(here)) != found:
+            if (here and self._identity(here)) != found:
                 raise AmbiguousIncludeError(path, leaf, found, here)
             if here:
                 with swap_dir(self.include_dirs, _directories_of(here)[0]), self._own_dirs(here):
                     self._same_includes(found, here)
 
+    def _identity(self, path):
+        """ One file reached through a symbolic or a hard link is still one file: the first real path seen stands for it. """
+        status = os.stat(path)
+        return self.inodes.setdefault((status.st_dev, status.st_ino), os.path.realpath(path))
+
     def _process_file(self, path):
-        abspath = os.path.realpath(path)   # one file reached through a symbolic link is still one file
+        abspath = self._identity(path)
         name = os.path.splitext(os.path.basename(path))[0]
         if self.names.setdefault(name, abspath) != abspath:
             raise SameNameError(name, self.names[name], abspath)
+        if self.name_of.setdefault(abspath, name) != name:
+            """ the outputs are named after the base name: the definitions of the file would be written twice """
+            raise TwoNamesError(abspath, self.name_of[abspath], name)
         if abspath in self.files:
             if self.files[abspath] is None:
                 raise CyclicIncludeError(path)
